@@ -458,10 +458,10 @@ def eval_merge(case):
             f'link_types {ra.types}+{rb.types}, limits: A {ra.sys.dof.limit is not None} B {rb.sys.dof.limit is not None}')
     la, lb = ra.sys.dof.limit is not None, rb.sys.dof.limit is not None
     key = f'merge:{pipe}'
-    if la != lb:
-      # circumstance of defect D4 (positional/joints.py pad_x_dof): a part without any joint limit
-      # (`dof.limit is None`) merged with a part that has one
-      key = f'merge:{pipe}:limit-none-part'
+    if la != lb and pipe == 'positional':
+      # circumstance of defect D4 (positional/joints.py pad_x_dof, fixed in 0130879): a part without
+      # any joint limit (`dof.limit is None`) merged with a part that has one
+      key = 'merge:positional:limit-none-part'
     elif (pipe == 'generalized' and mis['step'] >= 1 and not mis.get('nonfinite')
           and limit_active(ra, oa, mis['step']) and limit_active(rb, ob, mis['step'])):
       # circumstance of finding F-C05-1: constraint.force solves ONE truncated projected-gradient
@@ -702,10 +702,13 @@ def collect(ctx, units, shrink_budget=45.0, max_shrunk=3):
   for u in units:
     for case, f in u['failures']:
       seen.setdefault(f['key'], []).append((case, f))
+  known = {e['key'] for e in C.load_known('C05') if e.get('kind') == 'known'}
+  shrunk = 0
   for key, lst in sorted(seen.items()):
     case, f = lst[0]
-    if len(fails) < max_shrunk:
+    if key not in known and shrunk < max_shrunk:    # a listed finding already has its minimised witness
       case, f = shrink(case, f, shrink_budget)
+      shrunk += 1
     rp = dict(case)
     rp.pop('docs', None)
     fails.append(dict(key=key, what=f['what'], occurrences=len(lst), **rp))
@@ -822,7 +825,8 @@ def correspond(ctx):
                  per_pipeline=per_pipe, worst_error_over_tolerance=tot['worst_over_tol'], jit_compiles=tot['compiles'],
                  perm_skipped_fewer_than_3_bodies=tot['perm_skipped_small'],
                  perm_skipped_no_siblings=tot['perm_skipped_no_siblings'], models_limits=limits,
-                 lean_lines=n_lines, workers=n_jobs()))
+                 lean_lines=n_lines, workers=n_jobs(),
+                 failures_by_key={f['key']: f['occurrences'] for f in fails}))
 
 
 def search(ctx, broken, corr):
